@@ -1,4 +1,5 @@
 import MitmVerif.Model.C07
+import MitmVerif.Model.C07_Reader
 import Driver.Proto
 open MitmVerif Driver
 
@@ -56,6 +57,30 @@ def flow (dir lim thr store pol exp endS chunks : String) : String :=
     | _, _ => "rejected"
   | _, _, _, _, _ => "bad-op"
 
+def framingOf (s : String) : Option Framing :=
+  if s = "chunked" then some .chunked
+  else if s = "eof" then some .untilEof
+  else match s.splitOn ":" with
+    | ["cl", n] => n.toNat?.map .cl
+    | _ => none
+
+/-- the whole receive path: wire segments -> body readers -> HttpStream -/
+def wire (dir lim thr store pol fr segs close : String) : String :=
+  match optOf lim, optOf thr, policyOf pol, framingOf fr, chunksOf segs with
+  | some l, some t, some (p, f), some fr, some sg =>
+    match l, t with
+    | some l, some t =>
+      if (dir ≠ "req" ∧ dir ≠ "resp") ∨ (store ≠ "0" ∧ store ≠ "1") ∨ (close ≠ "0" ∧ close ≠ "1") then "bad-op" else
+      let o : Opts := { limit := l, thr := t, store := store == "1" }
+      let w := wireRun o (dir == "resp") p f fr sg (close == "1")
+      let err := w.outs.contains Out.hookError
+      let relayed := w.outs.contains Out.sendHead
+      let peer := (dataOf w.outs).filter (· ≠ [])
+      let content := match w.st.content with | some c => showBytes c | none => "none"
+      s!"{if err then 1 else 0} {if relayed then 1 else 0} {showNatList w.smp} {showChunks peer} {content} {if w.sawTrailer then 2 else if w.protoErr then 1 else 0}"
+    | _, _ => "rejected"
+  | _, _, _, _, _ => "bad-op"
+
 def stepLine (line : String) : String :=
   match fields line with
   | ["size", h] =>
@@ -65,6 +90,7 @@ def stepLine (line : String) : String :=
       | none => "err"
     | none => "bad-op"
   | ["flow", dir, lim, thr, store, pol, exp, endS, chunks] => flow dir lim thr store pol exp endS chunks
+  | ["wire", dir, lim, thr, store, pol, fr, segs, close] => wire dir lim thr store pol fr segs close
   | _ => "bad-op"
 
 end C07Driver
